@@ -27,6 +27,14 @@ checks = {
    'Trace monitor on generated chains of recording slots (order values with forced ties, 0-6 or 13-42 slots per kind, behaviours pass/nil/wait/block-fresh/block-by-mutating-context-result/panic, exit handlers error/panic): the complete call log of each Entry/Exit/re-Exit is compared with the sequence implied by the chain description (ascending order, stable ties, first block wins, statistic callbacks exactly once, fail-open), and every returned *BlockError is re-read after 1/10/100/1000 further entries that recycle pooled objects.',
    'Trusts the chain description as oracle; sequential, GOMAXPROCS=1 so that sync.Pool is a LIFO.',
    'runtime trace monitor (recorded call log vs expected sequence) on generated slot chains', 'DESIGN.md §3 C16'),
+ 'C05': ('exploration',
+   'Envelope and metamorphic monitors over recorded per-value admission logs of generated multi-value arrival histories (virtual ms clock): reject mode E1 long-run envelope, E2 single-duration burst bound, E3 idle value granted; throttling mode pass-time spacing >= floor(batch*duration/threshold), requested sleep < max queueing, no sleep for rejected requests; requests without the selected argument (index out of range, missing key) never limited; projection equality: the decisions for a value in the full history equal those of the history containing only that value replayed at the same instants against a fresh rule; below-capacity cases checked for panics/termination only.',
+   'Trusts the envelope formulas transcribed from the statement, the virtual clock and recorded (not slept) sleeps; sequential callers only.',
+   'runtime envelope monitors over recorded admission logs + metamorphic (projection) differential on the real code', 'DESIGN.md §3 C05'),
+ 'C06': ('exploration',
+   'Lock-step per-(rule,value) semaphore model vs. api.Entry/Exit on generated histories (index / negative index / attachment key selection, specific items over int/string/bool/float/struct/int64 values, threshold 0-4, nested and out-of-order exits, interleaved arg-less entries that recycle pooled objects), Input.Args of every live entry re-read after every op, capacity probe at quiescence; plus 16 goroutines under the race detector with barrier capacity probes (each value must admit exactly its threshold once everything has exited).',
+   'Trusts the semaphore model; distinct live values stay below the parameter capacity; under real concurrency only conservation at quiescence and argument integrity are asserted (the statement gives no k-1 allowance and the check/increment window is real).',
+   'runtime reference-model monitor + race-detector stress with quiescent capacity probes', 'DESIGN.md §3 C06'),
  'C08': ('exploration',
    'Reference-model monitor: every getter of BucketLeapArray / SlidingWindowMetric / BaseStatNode is compared with a naive aligned-bucket multiset model after every step of generated monotone virtual-time histories (hostile deltas: exact bucket/cycle boundaries, idle gaps beyond the array, near-zero times) over sampled valid geometries, plus an exhaustive constructibility grid. Held on the histories executed, nothing more.',
    'Trusts the 150-line reference model ref.Win and the virtual clock; sequential only (concurrency is C09); geometries and histories are sampled, the grid (13x16)^2 is exhaustive.',
